@@ -38,6 +38,15 @@ def opt_teval(rng, kw, meta):
 
 
 def opt_events(rng, kw, meta):
+    if rng.random() < 0.15 and kw["method"] != "RK4" and not kw["prob"].get("forward_only"):
+        # the same problem in a time unit of 2^-40 (about 1e-12): whole steps shorter than the root finder's absolute
+        # tolerance, where it converges on entry (seeded change C08-c: stale event state in exactly that case)
+        from . import orders
+        w = 2.0 ** 40
+        kw["prob"] = orders.time_scaled(kw["prob"], w)
+        kw["x0"] = kw["x0"] / w
+        kw["xend"] = kw["xend"] / w
+        meta["time_unit"] = 1.0 / w
     x0, xend = kw["x0"], kw["xend"]
     kw["events"] = gen.gen_events(rng, kw["prob"], x0, xend, kmax=4)
     meta["events"] = len(kw["events"])
